@@ -374,6 +374,32 @@ instance : DecidableEq (Except String (List String)) := fun a b =>
   | .ok _, .error _ => isFalse (by intro e; cases e)
   | .error _, .ok _ => isFalse (by intro e; cases e)
 
+/-! ## agreement with a probed fact table -/
+
+def allKinds : List Kind :=
+  [.expr, .conditionalor, .conditionaland,
+   .relation, .relation_lt, .relation_le, .relation_gt, .relation_ge, .relation_eq, .relation_ne, .relation_in,
+   .addition, .addition_add, .addition_sub,
+   .multiplication, .multiplication_mul, .multiplication_div, .multiplication_mod,
+   .unary, .unary_not, .unary_neg,
+   .member, .member_dot, .member_dot_arg, .member_index, .member_object,
+   .primary, .literal, .dot_ident_arg, .dot_ident, .ident_arg, .ident, .paren_expr, .list_lit, .map_lit,
+   .exprlist, .fieldinits, .mapinits]
+
+/-- the positions of a node the extractor distinguishes (names used by the probe generator) -/
+def probePositions : List String :=
+  ["top", "dot-root", "idx-root", "arg-root", "idx-term", "prim-child", "idx-descent"]
+
+def sameSet (a b : List String) : Bool := a.all (b.contains ·) && b.all (a.contains ·)
+
+/-- one row of the probed table: a tree and what the real `extract_argument_structure` did with it
+    (`some keys` = the returned set, `none` = it raised) -/
+def probeAgrees (t : Cel) (observed : Option (List String)) : Bool :=
+  match extract t, observed with
+  | .ok ks, some e => sameSet ks e
+  | .error _, none => true
+  | _, _ => false
+
 /-! ## is the dispatch complete for everything the grammar admits?  (decidable over the tables) -/
 
 def singleNt : List Sym → Option Kind
